@@ -593,6 +593,13 @@ def seam_check(rep, rundir, prop, texts=(), templates=(), wrappers=None, limit=1
         jobs.append(("plain", b, None, b))
         jobs.append(("pair", b, None, a))
     obs = run_impl(_seam_obs, [j[3] for j in jobs], rundir, limit=limit)
+    # an evaluation that did not return in time is given a second, much longer chance on its own before it counts
+    # (the workers share the machine with whatever else is running)
+    slow = [i for i, o in enumerate(obs) if o.get("hung")]
+    if slow:
+        again = run_impl(_seam_obs, [jobs[i][3] for i in slow], rundir, limit=max(60.0, 8 * limit), chunksize=1, procs=max(1, min(4, len(slow))))
+        for i, o in zip(slow, again):
+            obs[i] = o
     plain = {}
     for j, o in zip(jobs, obs):
         if j[0] == "plain":
